@@ -85,6 +85,7 @@ type Tree struct {
 	MaxDepth   int
 	Capped     bool
 	Err        error
+	rootOnly   bool
 }
 
 // Run explores.  body must be deterministic given the chooser.  check is called after
@@ -92,6 +93,56 @@ type Tree struct {
 func (t *Tree) Run(body func(c *Chooser)) {
 	t.explore(nil, 0, body)
 }
+
+// RunShard explores shard i of n of the whole tree: every shard runs the root execution
+// (the all-default schedule; only shard 0 counts it), the root's children (one deviation
+// at one position) are dealt round-robin to the shards, and each shard explores the whole
+// subtree of its children.  The union over i = 0..n-1 is exactly what Run explores.
+func (t *Tree) RunShard(shard, n int, body func(c *Chooser)) {
+	if n <= 1 {
+		t.Run(body)
+		return
+	}
+	c := &Chooser{}
+	t.rootOnly = shard != 0
+	body(c)
+	t.rootOnly = false
+	if shard == 0 {
+		t.Executions++
+		t.Points += int64(len(c.choices))
+	}
+	if len(c.choices) > t.MaxDepth {
+		t.MaxDepth = len(c.choices)
+	}
+	if c.err != nil {
+		t.Err = c.err
+		return
+	}
+	idx := 0
+	for i := 0; i < len(c.choices); i++ {
+		for alt := 1; alt < c.ns[i]; alt++ {
+			cost := c.costAt(i, alt)
+			if cost > t.Bound {
+				continue
+			}
+			idx++
+			if idx%n != shard {
+				continue
+			}
+			np := make([]int, i+1)
+			copy(np, c.choices[:i])
+			np[i] = alt
+			t.explore(np, cost, body)
+			if t.Err != nil {
+				return
+			}
+		}
+	}
+}
+
+// RootOnly reports that the current execution is the root execution of a shard other
+// than 0 (it only discovers the children; shard 0 judges it).
+func (t *Tree) RootOnly() bool { return t.rootOnly }
 
 // RunFrom explores only the subtree below prefix (sharding).
 func (t *Tree) RunFrom(prefix []int, cost int, body func(c *Chooser)) {
